@@ -545,6 +545,17 @@ def run(ctx: Ctx):
         same = isinstance(r2, _Rec) and all(r2.fields.get(n) == r.fields.get(n) for n in list_fields)
         ctx.check(same, "merge-leaves-documents-untouched", "create_lsp_model:second-load",
                   "a second load of the same documents gives a different model", P_MODEL, clm.lineno)
+    # exactly two documents (the common "base + proposed" invocation)
+    try:
+        two = mit.call(clm, [_copy.deepcopy(pristine[:2])])
+        for n in list_fields:
+            want2 = [x for d in pristine[:2] for x in d[n]]
+            got2 = two.fields.get(n) if isinstance(two, _Rec) else None
+            ctx.check(got2 == want2, "merge-extends-all", f"LSPModel.{n}:two-documents",
+                      f"loading two documents gives {n} = {got2}; expected {want2}", P_MODEL, clm.lineno)
+    except _Raised as e:
+        ctx.fail("merge-extends-all", "create_lsp_model:two-documents", f"create_lsp_model raises {e.exc_name} on two documents",
+                 P_MODEL, clm.lineno)
     try:
         single = mit.call(clm, [[_copy.deepcopy(pristine[0])]])
         ok1 = isinstance(single, _Rec) and all(single.fields.get(n) == pristine[0][n] for n in list_fields)
